@@ -131,6 +131,9 @@ def registry_rules(ctx, rule: str):
             ok = (isinstance(g, ast.If) and node in g.body and isinstance(g.test, ast.Compare) and len(g.test.ops) == 1 and isinstance(g.test.ops[0], ast.NotIn)
                   and _dump(g.test.left) == _dump(key) and _src(raw, g.test.comparators[0]) == "self._data" and not g.orelse
                   and _src(raw, key).endswith(".id") and isinstance(node.value, ast.Name) and _src(raw, key).split(".")[0] == node.value.id)
+        elif raw is add and kind == "update":
+            # self._data.update((item.id, item) for item in member.values() if item.id not in self._data): lazily filtered pairs
+            ok = _filtered_pairs(raw, node) is not None
         r.ob(rule + ".combined-first-wins", "%s@%s" % (raw.qualname, kind), ok,
              "the only writer of a combined registry must be insert-if-absent keyed by the item's own id (first member wins): `%s`" % _src(raw, node),
              "%s:%d" % (raw.module.relpath, node.lineno))
@@ -138,10 +141,17 @@ def registry_rules(ctx, rule: str):
     # the union covers all values of the member
     loops = [n for n in ast.walk(add.node) if isinstance(n, ast.For)]
     guards = [n for n in ast.walk(loops[0]) if isinstance(n, ast.If)] if loops else []
-    ok = len(loops) == 1 and _src(add, loops[0].iter).replace(" ", "") in ("six.itervalues(registry)", "itervalues(registry)", "registry.values()", "list(registry.values())") and not any(
+    upd = [n for _f, k_, n in writers if _f is add and k_ == "update"]
+    if not loops and len(upd) == 1 and _filtered_pairs(add, upd[0]) is not None:
+        comp = _filtered_pairs(add, upd[0])
+        okc = _src(add, comp.generators[0].iter).replace(" ", "") in ("six.itervalues(registry)", "itervalues(registry)", "registry.values()", "list(registry.values())")
+        r.ob(rule + ".combined-union", add.qualname, okc, "add_registry must visit every item of the member: `%s`" % _src(add, comp), add.where())
+        loops = None
+    ok = loops is not None and len(loops) == 1 and _src(add, loops[0].iter).replace(" ", "") in ("six.itervalues(registry)", "itervalues(registry)", "registry.values()", "list(registry.values())") and not any(
         isinstance(n, (ast.Break, ast.Continue)) for n in ast.walk(loops[0])) and all(
         isinstance(g.test, ast.Compare) and isinstance(g.test.ops[0], ast.NotIn) and _src(add, g.test.comparators[0]) == "self._data" for g in guards)
-    r.ob(rule + ".combined-union", add.qualname, ok, "add_registry must visit every item of the member unconditionally: `%s`" % (_src(add, loops[0]) if loops else "no loop"), add.where())
+    if loops is not None:
+        r.ob(rule + ".combined-union", add.qualname, ok, "add_registry must visit every item of the member unconditionally: `%s`" % (_src(add, loops[0]) if loops else "no loop"), add.where())
     for name, want, forms in (("__getitem__", "self._data[item]", ("self._data[item]", "self._data.__getitem__(item)")),
                               ("__iter__", "iter(self._data)", ("iter(self._data)", "self._data.__iter__()", "iter(self._data.keys())")),
                               ("__len__", "len(self._data)", ("len(self._data)", "self._data.__len__()", "len(self._data.keys())")),
@@ -174,6 +184,14 @@ def registry_rules(ctx, rule: str):
                 idkw = items[0].args[0]
         if idkw is not None:
             idkw = _resolve_alias(dnodes, idkw)
+
+        class _NoWalrus(ast.NodeTransformer):
+            def visit_NamedExpr(self, node):
+                return ast.Name(id=node.target.id, ctx=ast.Load())
+
+        key = _NoWalrus().visit(ast.parse(ast.unparse(key), mode="eval").body)
+        if idkw is not None:
+            idkw = ast.parse(ast.unparse(idkw), mode="eval").body
         ok = idkw is not None and _dump(key) == _dump(idkw) and ast.unparse(key).endswith(".id")
         det = "an item must be filed under the id it carries: key `%s`, Item id `%s`" % (ast.unparse(key), ast.unparse(idkw) if idkw is not None else None)
     r.ob(rule + ".embedded-key-is-id", data.qualname, ok, det, data.where())
@@ -187,6 +205,12 @@ def registry_rules(ctx, rule: str):
     ln = _method(p, emb, "__len__")
     gi = _method(p, emb, "__getitem__")
     elts = [n.elt for n in ast.walk(it.node) if isinstance(n, ast.GeneratorExp)] + [n.value for n in ast.walk(it.node) if isinstance(n, ast.Yield) and n.value is not None]
+    for n in ast.walk(it.node):
+        # map(operator.attrgetter("name"), members): the name of every member
+        if isinstance(n, ast.Call) and isinstance(n.func, ast.Name) and n.func.id == "map" and len(n.args) == 2 and isinstance(n.args[0], ast.Call) \
+                and ast.unparse(n.args[0].func) in ("operator.attrgetter", "attrgetter") and len(n.args[0].args) == 1 \
+                and isinstance(n.args[0].args[0], ast.Constant) and n.args[0].args[0].value == "name":
+            elts.append(ast.Attribute(value=ast.Name(id="member", ctx=ast.Load()), attr="name", ctx=ast.Load()))
     ok = ("tar" in xsrc(it) and not any(isinstance(n, ast.If) for n in ast.walk(it.node)) and bool(elts)
           and all(isinstance(x, ast.Attribute) and x.attr == "name" and isinstance(x.value, ast.Name) for x in elts))
     ok = ok or _returns_only(it, ("iter(self._data)", "iter(self._data.keys())"))
@@ -231,8 +255,9 @@ def registry_rules(ctx, rule: str):
     ok = any(len(_self_attr_uses(t, "_extensions")) >= 1 for t in expanded(gi))
     r.ob(rule + ".filesystem-siblings", gi.qualname + "#extensions", ok, "lookup must try exactly the supported extensions (self._extensions)", gi.where())
     # yielded key is the stem
-    ys = [n for n in ast.walk(it.node) if isinstance(n, ast.Yield)]
-    ok = len(ys) == 1 and "splitext" in xsrc(it) and not any(isinstance(n, ast.If) for n in ast.walk(it.node))
+    ys = [n for n in ast.walk(it.node) if isinstance(n, (ast.Yield, ast.YieldFrom))]
+    ok = len(ys) == 1 and "splitext" in xsrc(it) and not any(isinstance(n, ast.If) for n in ast.walk(it.node)) and not any(
+        isinstance(n, ast.comprehension) and n.ifs for n in ast.walk(it.node))
     r.ob(rule + ".filesystem-siblings", it.qualname + "#stem", ok, "iteration must yield the stem of every enumerated file", it.where())
     # id is the stem of the opened file; fall-through raises KeyError
     idset = [n for n in xwalk(gi) if isinstance(n, ast.Assign) and any("record.id" in ast.unparse(t) for t in n.targets)]
@@ -290,9 +315,18 @@ def registry_rules(ctx, rule: str):
                     if guarded:
                         break
                 cur = up
-            if not guarded and t is not gi.node and "narrow" not in why and any(
+            if not guarded and "catches" not in why and t is not gi.node and any(
                     isinstance(x, ast.Call) and isinstance(x.func, ast.Attribute) and x.func.attr == "isfile" for x in xwalk(gi)):
                 guarded = True  # the open sits in a helper; the lookup path tests isfile before it hands the name over
+            if not guarded and "catches" not in why and isinstance(c.args[0], ast.Name):
+                # the name opened was selected by isfile used as a predicate: next(filter(fs.isfile, candidates), None)
+                for a in ast.walk(t):
+                    val = a.value if isinstance(a, (ast.Assign, ast.NamedExpr)) else None
+                    tg = (a.targets[0] if isinstance(a, ast.Assign) else a.target) if val is not None else None
+                    if isinstance(tg, ast.Name) and tg.id == c.args[0].id and any(
+                            isinstance(x, ast.Call) and isinstance(x.func, ast.Name) and x.func.id == "filter" and x.args
+                            and isinstance(x.args[0], ast.Attribute) and x.args[0].attr == "isfile" for x in ast.walk(val)):
+                        guarded = True
             r.ob(rule + ".filesystem-keyerror", gi.qualname + "#open", guarded, "a name that is not an existing file must end in KeyError: " + why, gi.where())
     wrap = [n for n in xwalk(gi) if isinstance(n, ast.Call) and isinstance(n.func, ast.Name) and n.func.id == "CircularRecord"]
     ok = bool(wrap) and any(kw.arg == "entity" and "characterize(record)" in ast.unparse(kw.value) for kw in item_calls[0].keywords) if item_calls else False
@@ -386,6 +420,18 @@ def table_value_returns(p: Program, fi: FuncInfo, table: str, depth: int = 3) ->
                     for x in ast.walk(n.target):
                         if isinstance(x, ast.Name):
                             yield x.id, _OTHER
+            elif isinstance(n, ast.Match):
+                k = self.kind(n.subject)
+                for case in n.cases:
+                    pt = case.pattern
+                    if isinstance(pt, ast.MatchSequence):
+                        for sub in pt.patterns:
+                            if isinstance(sub, ast.MatchAs) and sub.pattern is None and sub.name:
+                                yield sub.name, (_MEMBER if k == _MEMBERS else _OTHER)
+                            elif isinstance(sub, ast.MatchStar) and sub.name:
+                                yield sub.name, (_MEMBERS if k == _MEMBERS else _OTHER)
+                    elif isinstance(pt, ast.MatchAs) and pt.name:
+                        yield pt.name, (k if pt.pattern is None else _OTHER)
             elif isinstance(n, ast.AugAssign) and isinstance(n.target, ast.Name):
                 yield n.target.id, _OTHER
             elif isinstance(n, (ast.With,)):
@@ -454,6 +500,8 @@ def table_value_returns(p: Program, fi: FuncInfo, table: str, depth: int = 3) ->
                             if (isinstance(t, ast.Compare) and len(t.ops) == 1 and isinstance(t.ops[0], ast.In)
                                     and isinstance(t.left, ast.Name) and t.left.id == g.target.id and is_table(t.comparators[0])):
                                 return _MEMBERS
+            if isinstance(e, (ast.List, ast.Tuple, ast.Set)) and len(e.elts) == 1 and isinstance(e.elts[0], ast.Starred) and self.kind(e.elts[0].value) == _MEMBERS:
+                return _MEMBERS  # [*members]
             if isinstance(e, ast.Subscript) and not isinstance(e.slice, ast.Slice) and self.kind(e.value) == _MEMBERS:
                 return _MEMBER
             if isinstance(e, ast.Subscript) and isinstance(e.slice, ast.Slice) and self.kind(e.value) == _MEMBERS:
@@ -535,6 +583,40 @@ def table_value_returns(p: Program, fi: FuncInfo, table: str, depth: int = 3) ->
         return out
 
     return complaints(fi.node, depth)
+
+
+def _filtered_pairs(fi: FuncInfo, call: ast.Call):
+    """the comprehension behind `self._data.update(<pairs>)` when it is (key, item) for item in ... if key not in
+    self._data with key == item.id (possibly bound by a walrus in the filter); None otherwise"""
+    if len(call.args) != 1 or call.keywords:
+        return None
+    comp = _resolve_alias([fi.node], call.args[0])
+    if not isinstance(comp, (ast.GeneratorExp, ast.ListComp)) or len(comp.generators) != 1:
+        return None
+    g = comp.generators[0]
+    if not (isinstance(comp.elt, ast.Tuple) and len(comp.elt.elts) == 2 and isinstance(g.target, ast.Name)):
+        return None
+    key, val = comp.elt.elts
+    if not (isinstance(val, ast.Name) and val.id == g.target.id):
+        return None
+    want = "%s.id" % g.target.id
+    walrus = {}
+    for c in g.ifs:
+        for n in ast.walk(c):
+            if isinstance(n, ast.NamedExpr) and isinstance(n.target, ast.Name):
+                walrus[n.target.id] = ast.unparse(n.value)
+    key_src = walrus.get(key.id) if isinstance(key, ast.Name) else ast.unparse(key)
+    if key_src != want:
+        return None
+    for c in g.ifs:
+        tests = [c] + (c.values if isinstance(c, ast.BoolOp) and isinstance(c.op, ast.And) else [])
+        for t in tests:
+            if isinstance(t, ast.Compare) and len(t.ops) == 1 and isinstance(t.ops[0], ast.NotIn) and ast.unparse(t.comparators[0]) == "self._data":
+                left = t.left.value if isinstance(t.left, ast.NamedExpr) else t.left
+                lsrc = walrus.get(left.id, left.id) if isinstance(left, ast.Name) else ast.unparse(left)
+                if lsrc == want:
+                    return comp
+    return None
 
 
 def _helper_of(p: Program, fi: FuncInfo, call: ast.Call) -> Optional[FuncInfo]:
